@@ -390,6 +390,17 @@ pub fn run(o: &DriveOpts, out: &mut dyn Write, tid: usize) -> Value {
             let mut ok = rec.call(w, HCall { h, call: Call::New { n: o.n, cap: o.cap } });
             let mut ids: Vec<usize> = (0..win).collect();
             ids.shuffle(rng);
+            if h == 0 && rng.gen_bool(0.5) && win >= 4 {
+                // history: a group that lived and was collected before the tree is built (its ids come back through next_id())
+                let (a, b) = (ids[0], ids[1]);
+                ok = ok
+                    && rec.call(w, HCall { h, call: Call::Add { v: a } })
+                    && rec.call(w, HCall { h, call: Call::Add { v: b } })
+                    && rec.call(w, HCall { h, call: Call::Bind { v1: a, v2: b, a: labels[0].clone() } })
+                    && rec.call(w, HCall { h, call: Call::Put { v: b, d: datas[3].clone() } })
+                    && rec.call(w, HCall { h, call: Call::Data { v: b } });
+                ids.shuffle(rng);
+            }
             let verts: Vec<usize> = ids.iter().copied().take(size).collect();
             let ext: Vec<usize> = ids.iter().copied().skip(size).take(extras).collect();
             for v in verts.iter().chain(ext.iter()) {
